@@ -57,6 +57,7 @@ fn bounds_of<'a>(kind: u8, k: &'a [u8]) -> Bound<&'a [u8]> {
 }
 
 fn drain<I: Iterator>(mut it: I, f: impl Fn(I::Item) -> Item) -> (Vec<Item>, bool) {
+    crate::report::progress();
     let mut v = Vec::new();
     for d in it.by_ref() {
         v.push(f(d));
